@@ -794,6 +794,10 @@ class WatParser(RecursiveDescentParser):
         # Process any special case arguments:
         if ".load" in opcode or ".store" in opcode:
             args = self._parse_load_store_arguments(opcode)
+            # Lane index of the v128 lane load / store instructions:
+            args = tuple(args) + tuple(
+                self._parse_operands(OPERANDS[opcode][2:])
+            )
         elif opcode == "call_indirect":
             # Note: table_ref and type_ref are swapped in binary format:
             table_ref = self._parse_ref("table", default=0)
